@@ -81,7 +81,9 @@ func msgPool() []string {
 	for _, c := range []string{"live", "cancelled", "deadline"} {
 		for _, cid := range []string{"n", "-", hx("in-cid")} {
 			for _, d := range []string{"n", "ns2000", "raw-", "raw" + hx("soon")} {
-				ms = append(ms, c+"/"+cid+"/"+d)
+				for _, hc := range []string{"n", hx("h-cid")} {
+					ms = append(ms, c+"/"+cid+"/"+d+"/"+hc)
+				}
 			}
 		}
 	}
@@ -153,8 +155,15 @@ func generate(a wh.Args, o *wh.Out) []string {
 		}
 	}
 	for _, mw := range all {
+		rare := false // configurations of the open finding D17: a sample of the messages is enough
+		for _, c := range delayCfgsInitGtMax {
+			rare = rare || mw == "D:"+c
+		}
 		for _, r := range rs {
-			for _, m := range msgs {
+			for i, m := range msgs {
+				if rare && i%6 != 0 {
+					continue
+				}
 				add(stackReq([]string{mw}, m, r), "stack.depth1."+kindOf(mw))
 			}
 		}
@@ -302,15 +311,18 @@ func generate(a wh.Args, o *wh.Out) []string {
 		add("delay "+c+" "+pres[rng.Intn(len(pres))]+" "+string(b), "delay.random")
 	}
 
-	// 5. Throttle against the real clock: lower bound on the time n starts take
-	add("throttle 12 1000 2000000000", "throttle")  // 2ms period
-	add("throttle 6 2 10000000", "throttle")         // 5ms period
-	add("throttle 30 1000 500000000", "throttle")    // 0.5ms period
-	add("throttle 2 1 1000000", "throttle")
-	add("throttle 1 1 1000000", "throttle")
+	// 5. Throttle against the real clock: lower bound on the time n starts take; one Throttle shared by k callers
+	add("throttle 12 1000 2000000000 1", "throttle") // 2ms period
+	add("throttle 6 2 10000000 1", "throttle")       // 5ms period
+	add("throttle 30 1000 500000000 1", "throttle")  // 0.5ms period
+	add("throttle 2 1 1000000 1", "throttle")
+	add("throttle 1 1 1000000 1", "throttle")
+	add("throttle 12 1000 2000000000 12", "throttle.concurrent")
+	add("throttle 20 1000 1000000000 4", "throttle.concurrent")
 	if a.Thorough() {
-		add("throttle 200 1000 1000000000", "throttle")
-		add("throttle 50 10 100000000", "throttle")
+		add("throttle 200 1000 1000000000 1", "throttle")
+		add("throttle 50 10 100000000 1", "throttle")
+		add("throttle 100 1000 1000000000 16", "throttle.concurrent")
 	}
 	return reqs
 }
